@@ -23,7 +23,7 @@ if [ $build -ne 0 ] || [ $without -ne 0 ] || [ $with -eq 0 ] || [ $stable -ne 0 
 # now against our checks
 if [ -n "$(git -C /repo status --porcelain --untracked-files=no)" ]; then echo "REFUSING: /repo has uncommitted changes (commit contract files first)"; exit 2; fi
 cd /repo && git apply $dst/patch.diff || { echo "patch does not apply to /repo"; exit 2; }
-cd /verif && ./check $id quick > $dst/check.out 2>&1; crc=$?
+cd /verif && GOVC_NO_EVIDENCE=1 ./check $id quick > $dst/check.out 2>&1; crc=$?
 git -C /repo checkout -q -- .
 echo "check exit=$crc"; grep -E "VIOLATION|^$id:" $dst/check.out | head -8
 python3 - "$dst" "$id" "$crc" <<'PY'
